@@ -15,7 +15,10 @@ import (
 	"math/rand"
 	"net/url"
 	"path"
+	"runtime"
 	"strings"
+	"sync"
+	"sync/atomic"
 	"testing"
 
 	vh "git.torproject.org/pluggable-transports/snowflake.git/v2/common/zzverif"
@@ -176,6 +179,60 @@ func TestVerifC11Amp(t *testing.T) {
 	defer r.Finish()
 	rng := r.Rng
 	b64 := base64.RawURLEncoding.EncodeToString
+
+	// ---------------------------------------------------------------- 0. decoded polls are values of their own
+	// a decoded poll stays what it was while later polls are decoded (the broker handles many at once), in
+	// sequence and from concurrent goroutines
+	{
+		type kept struct {
+			want, got []byte
+			p         string
+		}
+		var ks []kept
+		for i := 0; i < r.N(40, 400); i++ {
+			d := make([]byte, 1+rng.Intn(200))
+			rng.Read(d)
+			p := EncodePath(d)
+			got, err := DecodePath(p)
+			if err != nil {
+				continue
+			}
+			ks = append(ks, kept{d, got, p})
+		}
+		for _, k := range ks {
+			r.Case("decpath/kept-across-later-decodes", "decpath "+vh.Hex([]byte(k.p)), true)
+			if !bytes.Equal(k.got, k.want) {
+				r.OracleFail("decoded-poll-overwritten-by-later-decode", "decpath "+vh.Hex([]byte(k.p)), vh.Hex(k.got),
+					"the bytes returned by DecodePath must stay the decoded poll; a later DecodePath call changed them")
+				break
+			}
+		}
+		var wg sync.WaitGroup
+		var bad int32
+		for g := 0; g < 8; g++ {
+			wg.Add(1)
+			seed := rng.Int63()
+			go func(seed int64) {
+				defer wg.Done()
+				lr := rand.New(rand.NewSource(seed))
+				for i := 0; i < 300; i++ {
+					d := make([]byte, 1+lr.Intn(300))
+					lr.Read(d)
+					got, err := DecodePath(EncodePath(d))
+					runtime.Gosched()
+					if err != nil || !bytes.Equal(got, d) {
+						atomic.AddInt32(&bad, 1)
+					}
+				}
+			}(seed)
+		}
+		wg.Wait()
+		r.Case("decpath/concurrent", "8 goroutines x 300 encode/decode round trips", true)
+		if bad > 0 {
+			r.OracleFail("concurrent-decodes-interfere", "8 goroutines x 300 encode/decode round trips", fmt.Sprintf("%d round trips returned other bytes", bad),
+				"polls decoded at the same time must not affect each other")
+		}
+	}
 
 	// ---------------------------------------------------------------- 1. EncodePath / DecodePath
 	for i := 0; i < r.N(300, 5000); i++ {
